@@ -47,15 +47,7 @@ theorem matching_evalTable (t : Table) :
 
 /-! ## Output values, positions and ranks -/
 
-theorem flattenCells_eq (cs : List Cell) :
-    flattenCells cs = cs.flatMap Cell.values := by
-  induction cs with
-  | nil => rfl
-  | cons c cs ih =>
-    cases c <;> simp [flattenCells, ih, Cell.values]
-
-theorem evalTable_outputValues (t : Table) : (evalTable t).outputValues = Spec.outputValues t := by
-  simp [evalTable, Spec.outputValues, flattenCells_eq]
+theorem evalTable_outputValues (t : Table) : (evalTable t).outputValues = Spec.outputValues t := rfl
 
 theorem position_rank (ov : List DTValue) (v : DTValue) :
     (∀ i, position ov v = some i → Spec.rank ov v = i ∧ i < ov.length) ∧
@@ -86,19 +78,20 @@ theorem position_rank (ov : List DTValue) (v : DTValue) :
         | some j => simp [hp] at hn
 
 /-- For entry lists of equal length the comparator closure orders by the lexicographic
-order of the rank lists. -/
-theorem compareOutputs_gt_iff (ov : List DTValue) :
-    ∀ (xs ys : List DTValue), xs.length = ys.length →
-      (compareOutputs ov xs ys = .gt ↔
-        Spec.lexLe (xs.map (Spec.rank ov)) (ys.map (Spec.rank ov)) = false)
-  | [], [], _ => by simp [compareOutputs, Spec.lexLe]
-  | [], _ :: _, h => by simp at h
-  | _ :: _, [], h => by simp at h
-  | x :: xs, y :: ys, h => by
-    have ih := compareOutputs_gt_iff ov xs ys (by simpa using h)
+order of the rank lists (each entry ranked among the output values of its own clause). -/
+theorem compareOutputs_gt_iff :
+    ∀ (ovs : List (List DTValue)) (xs ys : List DTValue), xs.length = ys.length →
+      (compareOutputs ovs xs ys = .gt ↔
+        Spec.lexLe (Spec.ranks ovs xs) (Spec.ranks ovs ys) = false)
+  | [], _, _, _ => by simp [compareOutputs, Spec.ranks, Spec.lexLe]
+  | _ :: _, [], [], _ => by simp [compareOutputs, Spec.ranks, Spec.lexLe]
+  | _ :: _, [], _ :: _, h => by simp at h
+  | _ :: _, _ :: _, [], h => by simp at h
+  | ov :: ovs, x :: xs, y :: ys, h => by
+    have ih := compareOutputs_gt_iff ovs xs ys (by simpa using h)
     have hx := position_rank ov x
     have hy := position_rank ov y
-    simp only [compareOutputs, List.map_cons, Spec.lexLe]
+    simp only [compareOutputs, Spec.ranks, Spec.lexLe]
     cases hpx : position ov x with
     | none =>
       have rx := hx.2 hpx
@@ -546,21 +539,21 @@ theorem mem_matchingRules {t : Table} {r : Rule} (h : r ∈ Spec.matchingRules t
 /-- On the rules of a well-formed table the comparator closure is the order of the keys. -/
 theorem cmp_agrees {t : Table} (wf : t.WF = true) (x y : Rule) (hx : x ∈ t.rules) (hy : y ∈ t.rules) :
     (compareOutputs (evalTable t).outputValues (evalRule x).outputs (evalRule y).outputs = .gt ↔
-      ordOf (fun a b : ERule => Spec.lexLe (a.outputs.map (Spec.rank (Spec.outputValues t)))
-        (b.outputs.map (Spec.rank (Spec.outputValues t)))) (evalRule x) (evalRule y) = .gt) := by
+      ordOf (fun a b : ERule => Spec.lexLe (Spec.ranks (Spec.outputValues t) a.outputs)
+        (Spec.ranks (Spec.outputValues t) b.outputs)) (evalRule x) (evalRule y) = .gt) := by
   rw [evalTable_outputValues]
   have hl : (evalRule x).outputs.length = (evalRule y).outputs.length := by
     simp [evalRule, wf_len wf hx, wf_len wf hy]
   rw [compareOutputs_gt_iff _ _ _ hl]
   simp only [ordOf]
-  by_cases hb : Spec.lexLe (List.map (Spec.rank (Spec.outputValues t)) (evalRule x).outputs)
-      (List.map (Spec.rank (Spec.outputValues t)) (evalRule y).outputs) = true
+  by_cases hb : Spec.lexLe (Spec.ranks (Spec.outputValues t) (evalRule x).outputs)
+      (Spec.ranks (Spec.outputValues t) (evalRule y).outputs) = true
   · simp [hb]
   · simp [hb]
 
 /-- The order on evaluated rules induced by the keys. -/
 def leE (t : Table) (a b : ERule) : Bool :=
-  Spec.lexLe (a.outputs.map (Spec.rank (Spec.outputValues t))) (b.outputs.map (Spec.rank (Spec.outputValues t)))
+  Spec.lexLe (Spec.ranks (Spec.outputValues t) a.outputs) (Spec.ranks (Spec.outputValues t) b.outputs)
 
 theorem leE_trans (t : Table) : ∀ a b c, leE t a b → leE t b c → leE t a c :=
   fun _ _ _ h1 h2 => lexLe_trans _ _ _ h1 h2
@@ -668,7 +661,7 @@ theorem defaultLoop_eq (ns : List (List Char)) (ds : List (Option DTValue)) (acc
     | cons d ds => simp [defaultLoop, ih]
 
 /-- The default output of the code is the specified default, for every table. -/
-theorem defaultOutput_eq' (names : List (List Char)) (ov : List DTValue) (rs : List ERule) :
+theorem defaultOutput_eq' (names : List (List Char)) (ov : List (List DTValue)) (rs : List ERule) :
     ∀ ds : List (Option DTValue), defaultOutput ⟨names, ov, ds, rs⟩ = Spec.defaultOf names ds := by
   intro ds
   simp only [defaultOutput, Spec.defaultOf]
